@@ -41,6 +41,7 @@ type Clause struct {
 }
 
 type LoopSpec struct {
+	Exit      []Clause // "loop n exit e": e holds whenever control leaves the loop
 	Inv       []Clause
 	Decr      *Clause
 	Modifies  []string
@@ -316,6 +317,8 @@ func (cs *Contracts) parseFile(path, pkg string) error {
 		case "invariant":
 			ls := cur.loop(p.loop)
 			ls.Inv = append(ls.Inv, cl)
+		case "exit":
+			cur.loop(p.loop).Exit = append(cur.loop(p.loop).Exit, cl)
 		case "decreases":
 			cur.loop(p.loop).Decr = &cl
 		case "lemma":
@@ -511,8 +514,8 @@ func (cs *Contracts) parseFile(path, pkg string) error {
 				body = fs[2]
 			}
 			switch kind {
-			case "invariant", "decreases":
-				if err := startClause(kind, n, body, kind == "invariant"); err != nil {
+			case "invariant", "decreases", "exit":
+				if err := startClause(kind, n, body, kind != "decreases"); err != nil {
 					return err
 				}
 			case "modifies":
